@@ -5,6 +5,7 @@
 mod util;
 mod c13;
 mod c15;
+mod c17;
 mod c18;
 mod c19;
 mod c20;
@@ -15,6 +16,8 @@ fn main() {
     match args.scenario.as_str() {
         "c13" => c13::run(&args),
         "c15" => c15::run(&args),
+        "c17" => c17::run(&args),
+        "c17-level" => c17::run_level_child(&args),
         "c18" => c18::run(&args),
         "c19" => c19::run(&args),
         "c20" => c20::run(&args),
